@@ -248,3 +248,61 @@ func init() {
 		return map[string][]string{"q1": {"re:q1"}, "q2": {"re:q2"}, "p1": {"re:p1"}}
 	})
 }
+
+// two callers on node A call a server on node B at the same time: every reply reaches the caller whose request it
+// answers, with the value made for it (the reply frames share links, receive queues and pooled buffers)
+func init() {
+	for _, prop := range []string{"C07", "C12"} {
+		harn.Register(harn.Scenario{Property: prop, Name: "remote-concurrent-calls", Run: func(ctx *harn.Ctx) *harn.Result {
+			return harn.Explore(ctx, harn.Sched{QuickBound: 1, ThoroughBound: 2, Preempt: false, Cache: true, HorizonS: 30, Body: netBody(netOpts{}, func(nw *NetWorld) {
+				spid := nw.b.spawnProbe("S", probeCfg{onCall: func(p *probe, from gen.PID, ref gen.Ref, m any) (any, error) {
+					q := fmt.Sprint(m)
+					// a binary reply: its bytes live in the frame buffer until they are copied out
+					return []byte("re:" + q + strings.Repeat(q[len(q)-1:], 40)), nil
+				}}, gen.ProcessOptions{})
+				type res struct {
+					q   string
+					v   any
+					err error
+				}
+				var results []res
+				for _, cn := range []string{"C1", "C2", "C3"} {
+					cn := cn
+					nw.a.spawnProbe(cn, probeCfg{onMsg: func(p *probe, from gen.PID, m any) error {
+						if m != "go" {
+							return nil
+						}
+						for i := 1; i <= 2; i++ {
+							q := fmt.Sprintf("%s-q%d", cn, i)
+							v, err := p.CallWithTimeout(spid, q, 2)
+							results = append(results, res{q, v, err})
+						}
+						return nil
+					}}, gen.ProcessOptions{})
+				}
+				nw.connect()
+				if nw.ex.Failed() {
+					return
+				}
+				nw.ex.Thread("G1", func() { nw.a.n.Send(nw.a.pids["C1"], "go") })
+				nw.ex.Thread("G2", func() { nw.a.n.Send(nw.a.pids["C2"], "go") })
+				nw.ex.Thread("G3", func() { nw.a.n.Send(nw.a.pids["C3"], "go") })
+				nw.Check = func() {
+					if len(results) != 6 {
+						nw.ex.Fail("caller-stuck", "%d of 6 remote calls returned", len(results))
+					}
+					for _, r := range results {
+						want := "re:" + r.q + strings.Repeat(r.q[len(r.q)-1:], 40)
+						switch {
+						case r.err != nil:
+							nw.ex.Fail("remote-call-failed", "call %q over a healthy connection returned %v", r.q, r.err)
+						case fmt.Sprintf("%s", r.v) != want:
+							nw.ex.Fail("foreign-response", "remote call %q returned %.60q, the reply made for it is %.60q", r.q, r.v, want)
+						}
+					}
+					nw.Out("n=%d", len(results))
+				}
+			})})
+		}})
+	}
+}
